@@ -10,7 +10,7 @@ from vlib.core import HarnessError, Violation, guarded, lib_call
 ID = "C05"
 DESIGN_REF = "3/C05"
 RULE = (
-    "Hypothesis-generated instances: 1-25 variables (60 thorough); constraint graphs built over a random topological order as "
+    "Hypothesis-generated instances: 1-30 variables (60 thorough); constraint graphs built over a random topological order as "
     "chains, forests, layered DAGs, dense DAGs, each optionally with duplicated and redundant transitive constraints, variable "
     "indices permuted; gaps >= 0 (integers, halves, floats); weights from {1e-2..1e10}; scales {0.5,1,2,4}; tied desired "
     "positions; a second family adds 1-3 back edges (cyclic clause). DAG oracle: terminates; nothing flagged unsatisfiable; every "
@@ -30,7 +30,7 @@ TOL_REL = 1e-9
 
 
 def budget(tier):
-    return dict(examples=1500, shards=4) if tier == "quick" else dict(examples=5000, shards=16)
+    return dict(examples=3000, shards=4) if tier == "quick" else dict(examples=5000, shards=16)
 
 
 # ------------------------------------------------------------------ generator
@@ -41,8 +41,8 @@ DES = st.one_of(st.integers(-20, 20), st.integers(-3, 3).map(lambda v: v + 0.5),
 
 @st.composite
 def instance(draw, tier):
-    nmax = 25 if tier == "quick" else 60
-    n = draw(st.one_of(st.integers(1, 12), st.integers(1, nmax)))
+    nmax = 30 if tier == "quick" else 60
+    n = draw(st.one_of(st.integers(1, 12), st.integers(8, nmax), st.integers(15, nmax)))
     shape = draw(st.sampled_from(["chain", "forest", "forest", "layered", "layered", "dense", "dense", "sparse", "diamonds", "diamonds"]))
     edges = []
     if shape == "chain":
@@ -111,7 +111,7 @@ def instance(draw, tier):
             i = draw(st.integers(1, n - 1))
             j = draw(st.integers(0, i - 1))
             cons.append([i, j, draw(GAPS)])
-    wide_w = draw(st.integers(0, 9)) < 3
+    wide_w = draw(st.integers(0, 9)) < 5
     wide_s = draw(st.integers(0, 9)) < 3
     des = [draw(DES) for _ in range(n)]
     ws = [draw(st.sampled_from([1, 1, 1, 0.01, 0.5, 3, 100, 1e4, 1e10])) if wide_w else 1 for _ in range(n)]
@@ -433,12 +433,26 @@ def check(spec, ctx):
     g1, c1, tol1 = certify(spec, x1)
     stalled = g1 <= tol1
     bucket = "suboptimal"
-    if stalled and not forest:
+    if stalled and not forest and same_as_k1_baseline(spec, x):
         bucket = "suboptimal:stall-on-non-forest-graph"
     raise Violation(bucket, "cost %.9g, witness (%s) exactly feasible with cost %.9g; continued satisfy() %s; forest=%r" % (float(c), best[0], float(best[1]), "reaches the certified optimum" if stalled else "does not certify", forest))
 
 
 KNOWN = {}
+
+
+def same_as_k1_baseline(spec, x):
+    """does the frozen baseline solver (pinned tree + D1) return these very positions on this instance?"""
+    from vlib import k1_reference_vpsc as ref
+
+    try:
+        vs = [ref.Variable(d, w, s) for d, w, s in zip(spec["des"], spec["ws"], spec["ss"])]
+        cs = [ref.Constraint(vs[i], vs[j], g) for i, j, g in spec["cons"]]
+        ref.Solver(vs, cs).solve()
+        xr = [v.position() for v in vs]
+    except Exception:
+        return False
+    return all(abs(a - b) <= 1e-9 * (1 + abs(a) + abs(b)) for a, b in zip(x, xr))
 
 
 def attribute(bucket, spec, msg):
